@@ -1335,7 +1335,7 @@ impl<'a> ApplicableAttr<'a> {
         }
     }
 
-    fn has_action(&self) -> bool {
+    pub(crate) fn has_action(&self) -> bool {
         match self {
             ApplicableAttr::Field(f) => f.action.is_some(),
             ApplicableAttr::Ghost(g) => g.action.is_some(),
